@@ -281,8 +281,8 @@ func (d *BytesData) Clone() channel.Data { return &BytesData{B: append([]byte{},
 
 type dataApp struct{ id channel.AppID }
 
-func (a *dataApp) Def() channel.AppID       { return a.id }
-func (a *dataApp) NewData() channel.Data    { return &BytesData{} }
+func (a *dataApp) Def() channel.AppID                              { return a.id }
+func (a *dataApp) NewData() channel.Data                           { return &BytesData{} }
 func (a *dataApp) ValidInit(*channel.Params, *channel.State) error { return nil }
 func (a *dataApp) ValidTransition(*channel.Params, *channel.State, *channel.State, channel.Index) error {
 	return nil
